@@ -328,6 +328,13 @@ class Executor:
     def write_attr(self, st: State, ref: Ref, attr: str, value):
         if isinstance(value, Seq):
             value = st.new_cell(value)
+        if isinstance(value, CellRef) and self.ctx.spec_mode == 0 and getattr(self.ctx, "no_let", 0) == 0:
+            # a computed series stored in an output field gets a name (definitional extension): sums and
+            # quantified clauses over it then mention one function symbol instead of its defining expression
+            sq = st.cells.get(value.cid)
+            if sq is not None and sq.items is None and sq.uf is None and sq.et in ("real", "int"):
+                from .sigma import name_seq
+                st.cells[value.cid] = name_seq(self, sq, force=True)
         value = self.let_name(value, attr)
         st.heap[(id(ref.obj), attr)] = value
         if st.log is not None:
@@ -590,8 +597,9 @@ class Executor:
         self.ctx.stats["implied_queries"] = self.ctx.stats.get("implied_queries", 0) + 1
         return r
 
-    def norm_slice_bound(self, b, n, default):
-        """python slice bound normalisation for step 1: None->default, negative wraps, clamp to [0,n]"""
+    def norm_slice_bound(self, b, n, default, st=None):
+        """python slice bound normalisation for step 1: None->default, negative wraps, clamp to [0,n]; the case
+        distinctions are dropped where the simple facts on the path already decide them (keeps terms canonical)"""
         if b is None:
             return default
         b = py_number(b)
@@ -599,8 +607,20 @@ class Executor:
             if b < 0:
                 b = max(0, b + n)
             return min(b, n)
-        b2 = ite(self.cmp("<", b, 0), self.vmax(0, self.arith("+", b, n)), b)
-        return self.vmin(b2, n)
+        neg = self.cmp("<", b, 0)
+        if neg is not True and neg is not False and st is not None and self.ctx.spec_mode == 0:
+            if self.implied(st, znot(neg)):
+                neg = False
+            elif self.implied(st, neg):
+                neg = True
+        b2 = ite(neg, self.vmax(0, self.arith("+", b, n)), b)
+        le = self.cmp("<=", b2, n)
+        if le is not True and le is not False and st is not None and self.ctx.spec_mode == 0:
+            if self.implied(st, le):
+                le = True
+            elif self.implied(st, znot(le)):
+                le = False
+        return ite(le, b2, n)
 
     def vmax(self, a, b):
         c = self.cmp(">=", a, b)
@@ -619,13 +639,16 @@ class Executor:
         if step is not None and py_number(step) != 1:
             self.unsupported(node, "slice step")
         n = sq.n
-        a = self.norm_slice_bound(lo, n, 0)
-        b = self.norm_slice_bound(hi, n, n)
+        a = self.norm_slice_bound(lo, n, 0, st)
+        b = self.norm_slice_bound(hi, n, n, st)
         if isinstance(a, int) and isinstance(b, int) and sq.items is not None:
             items = sq.items[a:b]
             out = Seq(sq.kind, len(items), items=items, et=sq.et)
         else:
-            ln = self.vmax(0, self.arith("-", b, a))
+            ln = self.arith("-", b, a)
+            nonneg = self.cmp(">=", ln, 0)
+            if not (nonneg is True or (is_sym(nonneg) and self.implied(st, nonneg))):
+                ln = self.vmax(0, ln)
             if isinstance(ln, int) and isinstance(a, int):
                 out = Seq(sq.kind, ln, items=[sq.get(a + k) for k in range(ln)], et=sq.et)
             else:
@@ -1583,8 +1606,8 @@ class Executor:
                 hi = self.ev(t.slice.upper, st) if t.slice.upper is not None else None
                 if t.slice.step is not None:
                     self.unsupported(t, "slice step in assignment")
-                a = self.norm_slice_bound(lo, sq.n, 0)
-                b = self.norm_slice_bound(hi, sq.n, sq.n)
+                a = self.norm_slice_bound(lo, sq.n, 0, st)
+                b = self.norm_slice_bound(hi, sq.n, sq.n, st)
                 if sq.kind != "nd":
                     self.unsupported(t, "slice assignment on list")
                 rhs = v
